@@ -388,6 +388,61 @@ func registerSlow() {
 func runStartRace(t *Trace, seed int64) {
 	registerSlow()
 	r := rand.New(rand.NewSource(seed))
+	// (a) a section without listeners is still a section: an unknown plugin or a failing set-up in it aborts start-up
+	for ci, bad := range []config.PluginConfig{{Name: "no_such_plugin"}, {Name: "server_id", Args: []string{"not-an-address"}}} {
+		port := 20000 + (r.Intn(20000)+os.Getpid()*131+ci*29+9000)%20000
+		conf := &config.Config{
+			Server6: &config.ServerConfig{Addresses: []net.UDPAddr{{IP: net.ParseIP("::1"), Port: port}}, Plugins: []config.PluginConfig{{Name: "server_id", Args: []string{"LL", "00:de:ad:be:ef:00"}}}},
+			Server4: &config.ServerConfig{Addresses: []net.UDPAddr{}, Plugins: []config.PluginConfig{{Name: "server_id", Args: []string{"10.0.0.1"}}, bad}},
+		}
+		srv, err := server.Start(conf)
+		res := "err"
+		if err == nil {
+			res = "ok"
+			srv.Close()
+			done := make(chan error, 1)
+			go func() { done <- srv.Wait() }()
+			select {
+			case <-done:
+			case <-time.After(5 * time.Second):
+			}
+		}
+		t.Emit(Ev{"ev": "startcfg", "case": "no-listeners-bad-plugin", "bad": bad.Name, "res": res})
+	}
+	// (b) a chain that takes longer than two seconds still gets its answer onto the wire (what is sent is the response returned last)
+	{
+		port := 20000 + (r.Intn(20000)+os.Getpid()*131+7777)%20000
+		addr := net.UDPAddr{IP: net.ParseIP("::1"), Port: port}
+		conf := &config.Config{Server6: &config.ServerConfig{Addresses: []net.UDPAddr{addr}, Plugins: []config.PluginConfig{
+			{Name: "sleep", Args: []string{"2300ms"}}, {Name: "server_id", Args: []string{"LL", "00:de:ad:be:ef:00"}}}}}
+		srv, err := server.Start(conf)
+		e := Ev{"ev": "slowchain", "delay_ms": 2300, "res": "start-failed"}
+		if err == nil {
+			e["res"] = "timeout"
+			if c6, err := net.ListenUDP("udp6", &net.UDPAddr{IP: net.ParseIP("::1")}); err == nil {
+				m, _ := dhcpv6.NewSolicit(net.HardwareAddr{2, 0, 9, 9, 9, 9})
+				c6.WriteToUDP(m.ToBytes(), &addr)
+				c6.SetReadDeadline(time.Now().Add(7 * time.Second))
+				buf := make([]byte, 4096)
+				if n, _, err := c6.ReadFromUDP(buf); err == nil {
+					if rp, err := dhcpv6.FromBytes(buf[:n]); err == nil {
+						if rm, ok := rp.(*dhcpv6.Message); ok && rm.TransactionID == m.TransactionID {
+							e["res"] = "reply"
+						}
+					}
+				}
+				c6.Close()
+			}
+			srv.Close()
+			done := make(chan error, 1)
+			go func() { done <- srv.Wait() }()
+			select {
+			case <-done:
+			case <-time.After(5 * time.Second):
+			}
+		}
+		t.Emit(e)
+	}
 	for round, cfg := range []string{"ok", "fail", "ok", "fail"} {
 		port := 20000 + (r.Intn(20000)+os.Getpid()*131+round*17+4000)%20000
 		addr := net.UDPAddr{IP: net.ParseIP("::1"), Port: port}
